@@ -136,7 +136,12 @@ class BoundConstraints:
         self.m = np.count_nonzero(self.xl > -np.inf) + np.count_nonzero(
             self.xu < np.inf
         )
-        self.pcs = PreparedConstraint(bounds, np.ones(bounds.lb.size))
+        # scipy does not accept empty bounds (all variables fixed).
+        self.pcs = (
+            PreparedConstraint(bounds, np.ones(self.xl.size))
+            if self.xl.size > 0
+            else None
+        )
 
     @property
     def xl(self):
@@ -706,9 +711,16 @@ class Problem:
 
         # Set the bound constraints.
         self._orig_bounds = bounds
-        self._bounds = BoundConstraints(
-            Bounds(bounds.xl[~self._fixed_idx], bounds.xu[~self._fixed_idx])
-        )
+        if np.all(self._fixed_idx):
+            # All variables are fixed: scipy.optimize.Bounds does not accept
+            # empty arrays, and only the attributes lb and ub are needed.
+            reduced_bounds = OptimizeResult(lb=np.empty(0), ub=np.empty(0))
+        else:
+            reduced_bounds = Bounds(
+                bounds.xl[~self._fixed_idx],
+                bounds.xu[~self._fixed_idx],
+            )
+        self._bounds = BoundConstraints(reduced_bounds)
 
         # Set the initial guess.
         self._x0 = self._bounds.project(x0[~self._fixed_idx])
@@ -732,6 +744,7 @@ class Problem:
         # Scale the problem if necessary.
         scale = (
             scale
+            and self.n > 0
             and self._bounds.is_feasible
             and np.all(np.isfinite(self._bounds.xl))
             and np.all(np.isfinite(self._bounds.xu))
